@@ -138,6 +138,14 @@ class C09Monitor(Monitor):
             return
         w = self.w
         ordn = f.norm_ord
+        sp = w.plan.get("sprout") or {}
+        if "generator" in sp and ftap.chain == "deme" and ftap.index < len(sp.get("deme_filters", [])):
+            # the norm as it was CONFIGURED (plan), not as the filter object reports it back
+            spec = sp["deme_filters"][ftap.index]
+            if spec.get("kind") in ("far_enough", "nbc_far_enough"):
+                cfg = spec.get("norm_ord", 2)
+                ordn = np.inf if cfg == "inf" else cfg
+                w.probe("c09-configured-norm-used")
         for parent, cand in res.items():
             tl = parent._level + 1
             if tl >= len(tree.levels):
